@@ -266,7 +266,12 @@ def specStep (st : SpecSt) : Op → Obs → Option SpecSt
                                | some _ => .fresh
                                | none => .free) }
       else none
-  | .restore _ _, .nofile => some st
+  -- "no such file" is acceptable only for a slot no successful snapshot / stream was written to: a file a
+  -- snapshot call reported (under the path it returned) must be there to be restored
+  | .restore k _, .nofile =>
+    match lookupS k st.saved with
+    | none => some st
+    | some _ => none
   | .restore _ _, _ => none
   | .gsid, .sid got =>
     match st.sidExpect with
